@@ -4,6 +4,7 @@ import Driver.LedgerOracle
 import Driver.App
 import Driver.SflOracle
 import Driver.Symbase
+import Driver.SplitNeutral
 open Driver
 
 def runLedger (c : Case) : Res :=
@@ -27,6 +28,7 @@ def dispatch (c : Case) : Res :=
   | "ledger" => runLedger c
   | "app" => runApp c
   | "symbase" => runSymbase c
+  | "splitneutral" => runSplitneutral c
   | "symparse" => runSymparse c
   | f => { verdict := "BADCASE", msg := s!"unknown family {f}" }
 
